@@ -101,11 +101,23 @@ class VLoop(asyncio.AbstractEventLoop):
         return bool(b)  # forks on SymBool
 
     def _earliest(self):
+        """Earliest timer; ties between concrete deadlines go to the one scheduled first. Two timers whose
+        deadlines can be *symbolically* equal are an exact tie: the stock loop's heap and this loop may order
+        them differently, so that execution is pruned (counted as an aborted path; outside every claim)."""
         best = None
         for t in self._timers:
             if t._cancelled:
                 continue
-            if best is None or self._truth(t._when < best._when):
+            if best is None:
+                best = t
+                continue
+            lt = t._when < best._when
+            if isinstance(lt, SymBool):
+                if self._truth(lt):
+                    best = t
+                elif self._truth(t._when == best._when):
+                    raise core.PathAbort("tie: two timers at exactly the same symbolic instant")
+            elif lt:
                 best = t
         return best
 
